@@ -798,7 +798,7 @@ pub fn arb_search_case(max_trans: usize, n_queries: usize) -> SBoxedStrategy<Sea
 
 /// Dense zones: transition spacing smaller than the offset jumps so that 3+ candidates overlap and gaps/folds interleave.
 pub fn arb_dense_case() -> SBoxedStrategy<SearchCase> {
-    (proptest::collection::vec((1i64..5000, -14400i32..14400, any::<bool>()), 2..12), -2_000_000_000i64..2_000_000_000, proptest::collection::vec(arb_query(), 1..40), any::<bool>())
+    (prop_oneof![3 => proptest::collection::vec((1i64..5000, -14400i32..14400, any::<bool>()), 2..12), 1 => proptest::collection::vec((1i64..600, -14400i32..14400, any::<bool>()), 9..40)], -2_000_000_000i64..2_000_000_000, proptest::collection::vec(arb_query(), 1..40), any::<bool>())
         .prop_map(|(steps, t0, queries, fixed)| {
             let mut types = vec![MLtt::new(0, false, Some("LMT"))];
             let mut trans = vec![];
@@ -881,6 +881,38 @@ pub fn regression_cases() -> Vec<SearchCase> {
             }
             v.push(SearchCase { zone: MZone { trans: vec![(t, 1)], types: vec![est.clone(), edt.clone()], leaps: vec![], trailer: MTrailer::Alt(all.clone()) }, base_year: y, queries: qq.clone(), sec60_every: 0 });
             v.push(SearchCase { zone: MZone { trans: vec![(t - 86_400 * 200, 1), (t, 1)], types: vec![est.clone(), edt.clone()], leaps: vec![], trailer: MTrailer::Alt(all.clone()) }, base_year: y, queries: qq.clone(), sec60_every: 0 });
+        }
+    }
+    // many results for one local time (seeded change C05-r13bm2: the allocating search run through a fixed stack buffer of 8 entries):
+    // a "staircase" table that sets the clock back by D every D seconds (one local time occurs K + 1 times), and a "sawtooth" that
+    // alternates between two offsets an hour apart every 100 s (a dozen overlapping gaps and folds) — with and without a fixed trailer
+    for (k_steps, d) in [(3usize, 1000i64), (7, 1000), (8, 1000), (9, 1000), (12, 3600), (40, 1000)] {
+        let t0 = 1_000_000_000i64;
+        let types: Vec<MLtt> = (0..=k_steps).map(|k| MLtt::new(-(k as i32) * d as i32, k % 2 == 1, Some(&format!("S{k:02}")))).collect();
+        let trans: Vec<(i64, usize)> = (1..=k_steps).map(|k| (t0 + k as i64 * d, k)).collect();
+        let mut qs = vec![];
+        for x in [-1i64, 0, 1, d / 2, d - 1, d, d + 1, 2 * d] {
+            if let Some(f) = Fields::from_civil(&cal::civil_from_unix((t0 + x) as i128), 7) {
+                qs.push(Query::Civil(f));
+            }
+        }
+        for trailer in [MTrailer::None, MTrailer::Fixed(types[k_steps].clone())] {
+            v.push(SearchCase { zone: MZone { trans: trans.clone(), types: types.clone(), leaps: vec![], trailer }, base_year: 2001, queries: qs.clone(), sec60_every: 0 });
+        }
+    }
+    {
+        let t0 = 1_000_000_000i64;
+        let lo = MLtt::new(0, false, Some("LOW"));
+        let hi = MLtt::new(3600, true, Some("HIGH"));
+        let trans: Vec<(i64, usize)> = (1..=24usize).map(|k| (t0 + k as i64 * 100, k % 2)).collect();
+        let mut qs = vec![];
+        for x in [0i64, 99, 100, 101, 1199, 1200, 1250, 2400, 2500, 3599, 3600, 3700, 3601 + 2400, 6100] {
+            if let Some(f) = Fields::from_civil(&cal::civil_from_unix((t0 + x) as i128), 0) {
+                qs.push(Query::Civil(f));
+            }
+        }
+        for trailer in [MTrailer::None, MTrailer::Fixed(lo.clone())] {
+            v.push(SearchCase { zone: MZone { trans: trans.clone(), types: vec![lo.clone(), hi.clone()], leaps: vec![], trailer }, base_year: 2001, queries: qs.clone(), sec60_every: 0 });
         }
     }
     // both ends of the calendar (first / last seconds, incl. 23:59:60 of the last day) in fixed, table-only and DST-rule zones of either sign
